@@ -27,7 +27,7 @@ RULE += ('; also: members declared from the persist() hook or saved manually, an
 ASSUMPTIONS = ['custom loaders are constructible without arguments (the saved state records the loader class)', 'exceptions compare by type and args']
 REQUIRED = ['roundtrips', 'kinds/plain', 'kinds/method', 'kinds/savable', 'kinds/future', 'future_states/pending', 'future_states/result',
             'future_states/exception', 'future_states/exception-falsy', 'future_states/cancelled', 'future_states/result-savable', 'manually_saved', 'hook_declared', 'loader/default', 'loader/global', 'loader/persave', 'loader/unknown', 'loader/ctxreuse',
-            'mutation_probes', 'inherited_checks', 'rebound_name_probes', 'second_saves_same_context', 'refusing_loader_probes', 'global_loader_derived_from_recorded', 'loader/persave-anon', 'registry_loader_probes', 'foreign_method_probes', 'loaded_before_any_save_of_the_class', 'extended_context_copies', 'unimportable_module_probes']
+            'mutation_probes', 'inherited_checks', 'rebound_name_probes', 'second_saves_same_context', 'refusing_loader_probes', 'global_loader_derived_from_recorded', 'loader/persave-anon', 'registry_loader_probes', 'foreign_method_probes', 'loaded_before_any_save_of_the_class', 'extended_context_copies', 'unimportable_module_probes', 'loader/persave-picky']
 BOUNDS = {'quick': '150 shapes x 4 loader modes', 'thorough': '3000 shapes x 4 loader modes'}
 
 PLAIN_VALUES = [1, 's', None, [1, [2, 3]], {'k': [1, 2], 'd': {'e': 5}}, (1, 2), [], {}, ('run', [10, 20], {'depth': 1}), {'t': ([1], 2)},
@@ -71,6 +71,21 @@ class CountingLoader(loaders.ObjectLoader):
         if getattr(obj, '__module__', None) == generated.__name__:
             return 'custom!%s' % obj.__name__
         return 'custom!!' + loaders.DefaultObjectLoader().identify_object(obj)
+
+
+class PickyLoader(CountingLoader):
+    """A registry-style loader: it knows the generated classes and nothing else, and says so (ValueError) when asked to identify
+    anything else.  What it cannot identify cannot be saved through it -- and is not saved under some other loader's name either."""
+
+    def identify_object(self, obj):
+        if getattr(obj, '__module__', None) != generated.__name__:
+            raise ValueError('%r is not registered with this loader' % (obj,))
+        return super().identify_object(obj)
+
+    def load_object(self, identifier):
+        if not (isinstance(identifier, str) and identifier.startswith('custom!') and not identifier.startswith('custom!!')):
+            raise ValueError('identifier %r was not made by this loader' % (identifier,))
+        return super().load_object(identifier)
 
 
 class LenientCountingLoader(CountingLoader):
@@ -118,6 +133,7 @@ generated.register(Decoy, 'Decoy')
 generated.register(RegistryLoader, 'RegistryLoader')
 generated.register(RedirectingLoader, 'RedirectingLoader')
 generated.register(CountingLoader, 'CountingLoader')
+generated.register(PickyLoader, 'PickyLoader')
 generated.register(LenientCountingLoader, 'LenientCountingLoader')
 
 
@@ -131,6 +147,9 @@ def gen_cases(tier, seed):
         # 'persave-globalsub': saved with a per-save custom loader, loaded while a global loader of a derived class (resolving names its
         # own way) is installed; 'persave-anon': the per-save loader's class has no importable name, so it cannot be recorded
         yield {'shape': shape, 'mode': 'persave-globalsub' if i % 2 else 'persave-anon', 'i': i}
+        # 'persave-picky': the per-save loader refuses to identify what it does not know (e.g. plumpy's own future class of a member)
+        if i % 3 == 0:
+            yield {'shape': shape, 'mode': 'persave-picky', 'i': i}
 
 
 def rand_shape(rng, nest):
@@ -416,6 +435,8 @@ def run_case(case):
                 # the caller adds something of its own to the context it was given (a copy with more in it): the loader comes along
                 save_ctx = save_ctx.copyextend(purpose='checkpoint')
                 obs['extended_context_copies'] = 1
+        elif mode == 'persave-picky':
+            save_ctx = persistence.LoadSaveContext(loader=PickyLoader())
         elif mode == 'persave-anon':
             anon = type('SessionLoader', (CountingLoader,), {'__module__': '__main__'})  # (as if defined in an interactive session)
             save_ctx = persistence.LoadSaveContext(loader=anon())
@@ -425,6 +446,10 @@ def run_case(case):
         try:
             state = obj.save(save_ctx)
         except BaseException as exc:  # noqa: BLE001
+            if mode == 'persave-picky' and isinstance(exc, ValueError):
+                # the loader refused something the object holds: refusing to save is the answer that stores nothing unloadable
+                obs['picky_loader_refused'] = 1
+                return _res(case, viol, obs, kinds)
             if mode == 'persave-anon' and isinstance(exc, ValueError):
                 # the loader that was used cannot be recorded: refusing to save is the answer that stores nothing wrong
                 obs['unrecordable_loader_refused'] = 1
@@ -578,6 +603,8 @@ def run_case(case):
                 viol.append(V('ctxreuse-load-raised', 'ctxreuse-load-raised:%s' % type(exc).__name__,
                               'third load through a reused context raised %r after the global loader was reset' % (exc,)))
             load_ctx = persistence.LoadSaveContext()
+        if mode == 'persave-picky':
+            obs['picky_loader_saved'] = 1  # (everything it holds was known to the loader: then it comes back through that loader)
         if mode == 'persave-anon':
             obs['unrecordable_loader_saved'] = 1  # (saved all the same: then it has to come back as what it was, judged below)
             save_ctx = None
